@@ -38,9 +38,11 @@ def canon(text, loose=False):
     return R.recompose((s, a, p, q, f))
 
 
-def variants(text):
+def variants(text, loose=False):
     s, a, p, q, f = R.parse(text)
-    out = {text}
+    if loose:
+        q, f = q or None, f or None
+    out = {R.recompose((s, a, p, q, f))}
     if a is not None and p in ('', '/'):
         out |= {R.recompose((s, a, '', q, f)), R.recompose((s, a, '/', q, f))}
     return sorted(out)
@@ -66,13 +68,18 @@ def snap(u):
             u.host, u.port, u.username, u.password)
 
 
-def nav_snip(base, refs, want):
+def nav_snip(base, refs, want, loose=False):
     chain = ''.join('.navigate(%r)' % r for r in refs)
-    return HDR + 'got = URL(%r)%s.to_text()\nassert got in %r, got\n' % (base, chain, variants(want))
+    return HDR + 'got = URL(%r)%s.to_text()\nassert got in %r, got\n' % (base, chain, variants(want, loose))
 
 
-def classify(base, ref):
+IPV6 = 'base with an IPv6 literal host: the result loses the brackets'
+
+
+def classify(base, ref, got=None):
     bp, rp, rq = R.parse(base)[2], R.parse(ref)[2], R.parse(ref)[3]
+    if got is not None and '[' in (R.parse(base)[1] or '') and '[' not in (R.parse(got)[1] or ''):
+        return IPV6
     if bp == '' and rp and not rp.startswith('/'):
         return EMPTY_BASE
     if rq == '':
@@ -89,21 +96,24 @@ def check_nav(H, base, ref, loose=False):
     ok, b = H.guard(lambda: URL(base), 'rfc_5_2_target', 'URL', 'base does not parse', wit)
     if not ok:
         return None
-    before = snap(b)
+    ok, before = H.guard(lambda: snap(b), 'rfc_5_2_target', 'URL', 'base does not render', wit)
+    if not ok:
+        return None
     ok, r = H.guard(lambda: b.navigate(ref), 'rfc_5_2_target', site, 'navigate raises: ' + classify(base, ref), wit)
     if not ok:
         return None
     ok, got = H.guard(lambda: r.to_text(), 'rfc_5_2_target', site, 'result does not render', wit)
     if not ok:
         return None
-    if snap(b) != before:
-        H.fail('base_unmodified', site, classify(base, ref), wit, 'before %r after %r' % (before, snap(b)),
+    ok, after = H.guard(lambda: snap(b), 'base_unmodified', site, 'base does not render after navigate', wit)
+    if ok and after != before:
+        H.fail('base_unmodified', site, classify(base, ref), wit, 'before %r after %r' % (before, after),
                HDR + 'b = URL(%r); t = b.to_text(); b.navigate(%r)\nassert b.to_text() == t, b.to_text()\n' % (base, ref))
     if r is b:
         H.fail('base_unmodified', site, 'navigate returns the base object itself', wit, '')
     if canon(got, loose) != canon(want, loose):
-        H.fail('rfc_5_2_target', site, classify(base, ref), wit, 'navigate -> %r, RFC 3986 5.2 -> %r' % (got, want),
-               nav_snip(base, [ref], want))
+        H.fail('rfc_5_2_target', site, classify(base, ref, got), wit, 'navigate -> %r, RFC 3986 5.2 -> %r' % (got, want),
+               nav_snip(base, [ref], want, loose))
         return None
     parts = list(r.path_parts)
     path = R.parse(got)[2]
@@ -117,7 +127,7 @@ def run():
                 rule='one case = (base URL text, reference text); non-trivial = the reference has a dot segment, an '
                      'empty segment or an empty path (anything but a plain dot-free path), or the case is a chain / '
                      'absolute reference / normalize case',
-                bounds=dict(quick='7 base shapes x all reference paths <= 4 segments over {"", ".", "..", g, h} (relative '
+                bounds=dict(quick='8 base shapes x all reference paths <= 4 segments over {"", ".", "..", g, h} (relative '
                                   'and absolute-path, no "//" prefix) x query {absent, y} x fragment {absent, s}; chains of '
                                   'two references <= 2 segments; 12 absolute references; normalize on all paths <= 4',
                             thorough='12 base shapes x reference paths <= 6 segments; chains: first reference <= 3 segments, second <= 2'))
@@ -126,9 +136,9 @@ def run():
     H.parts['oracle_fold_equals_text_paths'] = info['fold_paths']
 
     bases = ['http://a/b/c/d;p?q', 'http://a', 'http://a/', 'http://a/b/c/', 'http://a/b', 'http://a?q',
-             'http://u:pw@a:8080/b/c?q=1#f']
+             'http://u:pw@a:8080/b/c?q=1#f', 'http://[::1]/b/c']
     if H.thorough:
-        bases += ['http://a/b//c', 'https://a/b/c/d/e/f', 'http://[::1]/b/c', 'ftp://a/b?x=1&x=2', 'x://a/b']
+        bases += ['http://a/b//c', 'https://a/b/c/d/e/f', 'ftp://a/b?x=1&x=2', 'x://a/b']
     n = 6 if H.thorough else 4
     paths = list(ref_paths(n))
     H.parts['reference_paths'] = len(paths)
@@ -197,7 +207,8 @@ def run():
                 mid_text = mid.to_text()
             except Exception:  # noqa  (reported by part 1)
                 continue
-            first_ok = canon(mid_text) == canon(mid_want)
+            if canon(mid_text) != canon(mid_want):
+                continue                           # the first step is already reported by part 1
             for r2 in short:
                 wit = dict(base=base, refs=[r1, r2])
                 H.ev(key=(base, r1, r2), sample=wit, part='chains')
@@ -210,9 +221,7 @@ def run():
                     continue
                 cls = classify(base, r1)
                 if cls != EMPTY_BASE:
-                    cls = classify(mid_want, r2)
-                if not first_ok:
-                    continue                       # the first step is already reported by part 1
+                    cls = classify(mid_want, r2, got)
                 if canon(got) != canon(want):
                     same_as_single = canon(got_reparsed) != canon(want)
                     H.fail('rfc_5_2_target' if (same_as_single or cls == EMPTY_BASE) else 'chained_equals_stepwise',
